@@ -121,22 +121,56 @@ def render_min(t, parent=-1, right=False):
     return s
 
 
+def representable(v):
+    """ is the exact value a double (or a bool)? """
+    if isinstance(v, bool):
+        return True
+    try:
+        return Fraction(float(v)) == Fraction(v)
+    except OverflowError:
+        return False
+
+
+def all_steps_exact(t):
+    """ every sub-tree's exact value is a double: IEEE arithmetic then makes no rounding error at any step, so the float result has to
+        be THE exact value, not merely close to it """
+    try:
+        v = eval_tree(t)
+    except DivZero:
+        return False
+    if not representable(v):
+        return False
+    if t[0] == 'leaf':
+        return True
+    if t[0] == 'neg':
+        return all_steps_exact(t[1])
+    return all_steps_exact(t[2]) and all_steps_exact(t[3])
+
+
 def check_trees(rng, tier):
     leaves = [Leaf('2', 2), Leaf('3', 3), Leaf('5', 5), Leaf('7', 7), Leaf('1.5', Fraction(3, 2)), Leaf('0.25', Fraction(1, 4))]
+    # powers of two far apart: sums and differences that need all 53 bits of the significand and are still exact
+    wide = leaves + [Leaf('4503599627370496', 2 ** 52), Leaf('1125899906842624', 2 ** 50), Leaf('0.5', Fraction(1, 2)), Leaf('1', 1),
+                     Leaf('9007199254740991', 2 ** 53 - 1), Leaf('0.0000152587890625', Fraction(1, 65536))]
     p = new_parser()
     cases = 0
     fails = []
 
-    def one(t):
+    def one(t, only_exact=False):
         try:
             expect = eval_tree(t)
         except DivZero:
             return
+        exact = all_steps_exact(t)
+        if only_exact and not exact:
+            return            # far-apart magnitudes: cancellation makes the float result legitimately differ from the exact one
         for text in (render_min(t), render_full(t), '((%s))' % render_min(t)):
             r = p.parse(text)
             ok = r['error'] is None and matches(r['result'], expect)
+            if ok and exact and not isinstance(expect, bool) and Fraction(r['result']) != Fraction(expect):
+                ok = False
             if not ok and len(fails) < 5:
-                fails.append({'formula': text, 'detail': 'expected %s got %r' % (expect, r)})
+                fails.append({'formula': text, 'detail': 'expected %s%s got %r' % (expect, ' (exactly: no step of this tree rounds)' if exact else '', r)})
     exhaustive_ops = 3 if tier == 'thorough' else 2
     small = leaves[:3] if tier == 'thorough' else leaves[:2]
     for n in range(0, exhaustive_ops + 1):
@@ -146,6 +180,28 @@ def check_trees(rng, tier):
     for _ in range(20000 if tier == 'thorough' else 2500):
         one(gen_tree(rng, rng.randint(1, 5 if tier == 'thorough' else 4), leaves))
         cases += 1
+    for _ in range(20000 if tier == 'thorough' else 2500):
+        one(gen_tree(rng, rng.randint(1, 4), wide), only_exact=True)
+        cases += 1
+    # leaves whose value is itself computed by evaluating a formula on the SAME parser while the outer formula is being parsed
+    # (a cell handler that evaluates the cell's own formula, a function or variable handler doing the same)
+    pn = new_parser()
+    pn.on('callCellValue', lambda cell, setter: setter(pn.parse({'A1': '2*3', 'B2': '(1+2)*4', 'C3': '7-10'}[cell.label])['result']))
+    pn.set_function('NESTED', lambda *a: pn.parse('1+2*3')['result'])
+    pn.on('callVariable', lambda name, setter: setter(pn.parse('10/4')['result']) if name == 'nv' else None)
+    nested = [Leaf('A1', 6), Leaf('B2', 12), Leaf('C3', -3), Leaf('NESTED()', 7), Leaf('nv', Fraction(5, 2)), Leaf('2', 2), Leaf('5', 5)]
+    for _ in range(4000 if tier == 'thorough' else 600):
+        t = gen_tree(rng, rng.randint(1, 4), nested)
+        cases += 1
+        try:
+            expect = eval_tree(t)
+        except DivZero:
+            continue
+        for text in (render_min(t), render_full(t)):
+            r = pn.parse(text)
+            if not (r['error'] is None and matches(r['result'], expect)) and len(fails) < 5:
+                fails.append({'formula': text, 'nested': True, 'detail': 'with A1 = 2*3, B2 = (1+2)*4, C3 = 7-10, NESTED() = 1+2*3, nv = 10/4 evaluated on the same '
+                              'parser by the handlers: expected %s got %r' % (expect, r)})
     # & chains and & against comparisons
     for a, b, c in itertools.product(['"x"', '2', '"y z"'], repeat=3):
         r = p.parse('%s&%s&%s' % (a, b, c))
@@ -275,6 +331,124 @@ def raising_case(i, text):
         return 'parse raised %s' % type(ex).__name__
 
 
+INTERFERENCE_FORMULAS = [
+    'TRUE+0', '1.0+0', '(1.0+0)&""', '(1+0)&""', 'f1*2', 'i1*2', 't*2', '(t*1)&""', 'f1&""', 'i1&""', 't&""', '1=TRUE', 'TRUE=1', '"a"<1', '"a"<TRUE', '1<TRUE',
+    '0=FALSE', 'FALSE&""', 'zf&""', 'z0&""', 'z0=FALSE', 'zf+TRUE', 'SUM(1,TRUE)', 'SUM(f1,i1,t)', 'IF(1,"y","n")', 'IF(t,f1,i1)&""', '1/0', 'x&"a"',
+    'MATCH("banana",words,0)', 'INDEX(words,2)', 'MATCH(4,lst,0)', 'LARGE({5,1,4},2)', 'LARGE(lst,2)', 'A1+$B$2', 'SUM(A1:B2)', 'when+1', 'DAY(when)', 'N(when)',
+    '"abc', 'nosuch', 'NOSUCH(1)', '((', '#N/A', 'IFERROR(1/0,"e")', 'TRIM("  a  b ")', 'UPPER("aé")', '{1,2;3,4}', '{1,2,3}*2', 'lst', '1.5=1.5', '2>1.0',
+    'ROUND(2.5,0)', 'INT(f1)&""', 'MAX(i1,f1)&""', 'MIN(t,2)', 'COUNT(lst)', 'CONCATENATE(i1,f1,t)', 'TEXTJOIN(",",TRUE,i1,f1,t)', 'AND(1,t)', 'OR(z0,zf)',
+    'XOR(i1,f1)', 'NOT(zf)', 'ISNUMBER(t)', 'ISNUMBER(f1)', 'ISLOGICAL(i1)', 'ISLOGICAL(t)', 'TYPE(1)', 'SIGN(f1)&""', 'ABS(t)', 'DEC2HEX(255)', 'BASE(10,2)']
+
+
+def fresh_process_outcomes(scratch, formulas):
+    """ formula -> repr(outcome) in a process that evaluated nothing else (pyvc.e2e_fresh) """
+    import json
+    import subprocess
+    import sys
+    import os
+    here = os.path.dirname(os.path.dirname(os.path.abspath(__file__)))
+    r = subprocess.run([sys.executable, '-m', 'pyvc.e2e_fresh', scratch], cwd=here, input=json.dumps(list(formulas)), stdout=subprocess.PIPE,
+                       stderr=subprocess.PIPE, universal_newlines=True, timeout=600)
+    if r.returncode != 0:
+        raise RuntimeError('fresh-process oracle failed: %s' % r.stderr[-500:])
+    return json.loads(r.stdout)
+
+
+def interference_case(seq, fresh=None):
+    """ seq: list of (parser index, formula, nested) - evaluated in this order on three parsers carrying the same registrations; `nested`
+        is None or (parser index, formula) evaluated by a custom function of the outer parser in the middle of the outer evaluation.
+        Returns the first step whose outcome differs from the fresh-process outcome of the same formula, or None. """
+    from . import e2e_fresh, native
+    if fresh is None:
+        need = set(f for _, f, _ in seq) | set(n[1] for _, _, n in seq if n)
+        fresh = fresh_process_outcomes(native.SCRATCH['dir'], sorted(need))
+    ps = [e2e_fresh.setup(new_parser()) for _ in range(3)]
+    for step, (pi, f, nested) in enumerate(seq):
+        if nested is not None:
+            got_inner = []
+            ps[pi].set_function('NEST', lambda *a, _n=nested: got_inner.append(repr(ps[_n[0]].parse(_n[1]))) or 0)
+            outer = repr(ps[pi].parse('IF(NEST()=0,%s,0)' % f if not f.startswith(('"abc', '((')) else f))
+            if got_inner and got_inner[0] != fresh[nested[1]]:
+                return step, 'nested evaluation of %r on parser %d gave %s, in a fresh process %s' % (nested[1], nested[0], got_inner[0], fresh[nested[1]])
+            plain = repr(ps[pi].parse(f))
+            if plain != fresh[f]:
+                return step, '%r on parser %d after a nested evaluation gave %s, in a fresh process %s' % (f, pi, plain, fresh[f])
+            continue
+        got = repr(ps[pi].parse(f))
+        if got != fresh[f]:
+            return step, '%r on parser %d gave %s, in a fresh process %s' % (f, pi, got, fresh[f])
+    return None
+
+
+def check_interference(rng, tier, scratch):
+    """ seeded interleavings over three parsers against the fresh-process oracle; (cases, fails) """
+    fresh = fresh_process_outcomes(scratch, INTERFERENCE_FORMULAS)
+    cases = 0
+    fails = []
+    n = len(INTERFERENCE_FORMULAS)
+    seqs = []
+    # every ordered pair once (the second formula sees whatever the first left behind), then seeded longer interleavings
+    for a in range(n):
+        for b in range(n):
+            if a != b:
+                seqs.append([(0, INTERFERENCE_FORMULAS[a], None), (1, INTERFERENCE_FORMULAS[b], None)])
+    for _ in range(300 if tier == 'quick' else 5000):
+        seq = []
+        for _k in range(rng.randint(2, 7)):
+            nested = (rng.randrange(3), rng.choice(INTERFERENCE_FORMULAS)) if rng.random() < 0.3 else None
+            seq.append((rng.randrange(3), rng.choice(INTERFERENCE_FORMULAS), nested))
+        seqs.append(seq)
+    for seq in seqs:
+        cases += len(seq)
+        r = interference_case(seq, fresh)
+        if r is not None and len(fails) < 5:
+            fails.append({'formula': seq[r[0]][1], 'interference': [list(s[:2]) + [list(s[2]) if s[2] else None] for s in seq],
+                          'detail': 'step %d of %r: %s' % (r[0], [(pi, f) for pi, f, _ in seq], r[1])})
+            # a polluted process would make every later sequence fail for the same reason: one witness is enough
+            break
+    return cases, fails
+
+
+def lazy_iterables_sweep(scratch, only=None, timeout=240):
+    """ run pyvc.e2e_child in a child process; returns (cases, failures).  A case that never reports END is a failure too. """
+    import json
+    import subprocess
+    import sys
+    import os
+    here = os.path.dirname(os.path.dirname(os.path.abspath(__file__)))
+    cmd = [sys.executable, '-m', 'pyvc.e2e_child', scratch] + ([json.dumps(only)] if only is not None else [])
+    proc = subprocess.Popen(cmd, cwd=here, stdout=subprocess.PIPE, stderr=subprocess.DEVNULL, universal_newlines=True)
+    try:
+        out, _ = proc.communicate(timeout=timeout)
+        killed = False
+    except subprocess.TimeoutExpired:
+        proc.kill()
+        out, _ = proc.communicate()
+        killed = True
+    started = {}
+    fails = []
+    n = 0
+    for line in out.splitlines():
+        try:
+            ev = json.loads(line)
+        except ValueError:
+            continue
+        if ev['ev'] == 'START':
+            started[ev['i']] = ev
+        else:
+            n += 1
+            st = started.pop(ev['i'], None)
+            if ev['bad'] and st is not None:
+                fails.append({'formula': st['formula'], 'lazy_case': [st['formula'], st['where'], st['how']],
+                              'host': '%s supplied as %s' % (st['how'], st['where']), 'detail': ev['bad']})
+    for st in started.values():
+        fails.append({'formula': st['formula'], 'lazy_case': [st['formula'], st['where'], st['how']], 'host': '%s supplied as %s' % (st['how'], st['where']),
+                      'detail': 'the child process never came back from this evaluation (%s)' % ('killed after %d s' % timeout if killed else 'it died, exit %s' % proc.returncode)})
+    if n == 0 and not fails:
+        fails.append({'formula': '(none)', 'detail': 'the child process reported no case: exit %s' % proc.returncode})
+    return n + len(started), fails
+
+
 def check_totality(rng, tier, names=None):
     from hotxlfp import formulas
     pool = value_pool()
@@ -374,6 +548,16 @@ def check_totality(rng, tier, names=None):
 
 def replay_formula(rp):
     """ generic replay of an e2e failure: formula (+ variable bindings by pool index) """
+    if rp.get('interference'):
+        seq = [(s[0], s[1], tuple(s[2]) if s[2] else None) for s in rp['interference']]
+        r = interference_case(seq)
+        print('evaluating %r in this order: %s' % ([(pi, f) for pi, f, _ in seq], 'every outcome equals the fresh-process outcome' if r is None else 'step %d: %s' % r))
+        return (r[1] if r else {'result': None, 'error': None})
+    if rp.get('lazy_case'):
+        from . import native
+        n, fails = lazy_iterables_sweep(native.SCRATCH['dir'], only=rp['lazy_case'], timeout=60)
+        print('%r with %s: %s' % (rp['formula'], rp.get('host'), fails[0]['detail'] if fails else 'comes back with a well-formed record'))
+        return fails[0]['detail'] if fails else {'result': None, 'error': None}
     if rp.get('listener_case'):
         bad = listener_case(rp['listener_case'][0], rp['listener_case'][1], rp['formula'])
         print('listener of %s doing %s during parse(%r): %s' % (rp['listener_case'][0], rp['listener_case'][1], rp['formula'], bad or 'well-formed result'))
@@ -382,6 +566,14 @@ def replay_formula(rp):
         bad = raising_case(rp['raising_case'], rp['formula'])
         print('custom function raising %r in parse(%r): %s' % (odd_exceptions()[rp['raising_case']], rp['formula'], bad or 'well-formed result'))
         return bad or {'result': None, 'error': None}
+    if rp.get('nested'):
+        pn = new_parser()
+        pn.on('callCellValue', lambda cell, setter: setter(pn.parse({'A1': '2*3', 'B2': '(1+2)*4', 'C3': '7-10'}[cell.label])['result']))
+        pn.set_function('NESTED', lambda *a: pn.parse('1+2*3')['result'])
+        pn.on('callVariable', lambda name, setter: setter(pn.parse('10/4')['result']) if name == 'nv' else None)
+        r = pn.parse(rp['formula'])
+        print('parse(%r) with handlers evaluating on the same parser -> %r' % (rp['formula'], r))
+        return r
     p = new_parser()
     pool = value_pool()
     for i, vi in enumerate(rp.get('binding_idx') or []):
